@@ -39,6 +39,9 @@ Definition arrayGet_range_contract (lib : caller -> str -> list value -> world -
   forall cb l i w elems, nth_error (w_arrs w) l = Some elems -> nth_error elems i = None ->
     lib cb ARRGET [VArr l; int_v i] w = (LArgs VNull msg, w).
 
+(* an evaluation relation for expressions (the reading is parametrized by it: [Ev] itself, or [Ev] restricted - Proofs/C01side2.v) *)
+Definition evrel := expr -> option env -> world -> outcome -> world -> Prop.
+
 (* a side condition that is only required when the flag is on *)
 Definition sc (chk : bool) (P : Prop) : Prop := chk = true -> P.
 
@@ -99,64 +102,64 @@ Inductive IterX (arr i : nat) (st : sstate) : value -> sstate -> Prop :=
     IterX arr i st VNull (logst ARRGET get_msg st).
 
 (* ---------------------------------------------------------------- the structured big-step reading, extended *)
-Inductive XExec (chk : bool) : unistmt -> sstate -> sout -> sstate -> Prop :=
-| Y_Skip s : XExec chk NSkip s SNormal s
-| Y_SeqN a b s s1 o s2 : XExec chk a s SNormal s1 -> XExec chk b s1 o s2 -> XExec chk (NSeq a b) s o s2
-| Y_SeqA a b s o s1 : XExec chk a s o s1 -> o <> SNormal -> XExec chk (NSeq a b) s o s1
-| Y_Assign x e loc w v w1 : Ev e loc w (OVal v) w1 -> XExec chk (NAssign x e) (loc, w) SNormal (assign x v loc w1)
-| Y_AssignStop x e loc w o w1 : Ev e loc w o w1 -> is_val o = false -> XExec chk (NAssign x e) (loc, w) (SStop o) (loc, w1)
-| Y_Expr e loc w v w1 : Ev e loc w (OVal v) w1 -> XExec chk (NExpr e) (loc, w) SNormal (loc, w1)
-| Y_ExprStop e loc w o w1 : Ev e loc w o w1 -> is_val o = false -> XExec chk (NExpr e) (loc, w) (SStop o) (loc, w1)
-| Y_Return e loc w o w1 : Ev e loc w o w1 -> XExec chk (NReturn (Some e)) (loc, w) (SStop o) (loc, w1)
-| Y_ReturnNone s : XExec chk (NReturn None) s (SStop (OVal VNull)) s
-| Y_Break s : XExec chk NBreak s SBreak s
-| Y_Continue s : XExec chk NContinue s SContinue s
-| Y_IfT c a rest loc w v w1 o s2 : Ev c loc w (OVal v) w1 -> truthy w1 v = true -> XExec chk a (loc, w1) o s2 -> XExec chk (NIf c a rest) (loc, w) o s2
-| Y_IfF c a rest loc w v w1 o s2 : Ev c loc w (OVal v) w1 -> truthy w1 v = false -> XExec chk rest (loc, w1) o s2 -> XExec chk (NIf c a rest) (loc, w) o s2
-| Y_IfStop c a rest loc w o w1 : Ev c loc w o w1 -> is_val o = false -> XExec chk (NIf c a rest) (loc, w) (SStop o) (loc, w1)
-| Y_Else b s o s1 : XExec chk b s o s1 -> XExec chk (NElse b) s o s1
-| Y_WhileF c b loc w v w1 : Ev c loc w (OVal v) w1 -> truthy w1 v = false -> XExec chk (NWhile c b) (loc, w) SNormal (loc, w1)
-| Y_WhileStop c b loc w o w1 : Ev c loc w o w1 -> is_val o = false -> XExec chk (NWhile c b) (loc, w) (SStop o) (loc, w1)
-| Y_WhileT c b loc w v w1 o s2 o3 s3 : Ev c loc w (OVal v) w1 -> truthy w1 v = true -> XExec chk b (loc, w1) o s2 ->
-    (o = SNormal \/ o = SContinue) -> XExec chk (NWhile c b) s2 o3 s3 -> XExec chk (NWhile c b) (loc, w) o3 s3
-| Y_WhileB c b loc w v w1 s2 : Ev c loc w (OVal v) w1 -> truthy w1 v = true -> XExec chk b (loc, w1) SBreak s2 ->
-    XExec chk (NWhile c b) (loc, w) SNormal s2
-| Y_WhileS c b loc w v w1 o s2 : Ev c loc w (OVal v) w1 -> truthy w1 v = true -> XExec chk b (loc, w1) (SStop o) s2 ->
-    XExec chk (NWhile c b) (loc, w) (SStop o) s2
+Inductive XExec (EV : evrel) (chk : bool) : unistmt -> sstate -> sout -> sstate -> Prop :=
+| Y_Skip s : XExec EV chk NSkip s SNormal s
+| Y_SeqN a b s s1 o s2 : XExec EV chk a s SNormal s1 -> XExec EV chk b s1 o s2 -> XExec EV chk (NSeq a b) s o s2
+| Y_SeqA a b s o s1 : XExec EV chk a s o s1 -> o <> SNormal -> XExec EV chk (NSeq a b) s o s1
+| Y_Assign x e loc w v w1 : EV e loc w (OVal v) w1 -> XExec EV chk (NAssign x e) (loc, w) SNormal (assign x v loc w1)
+| Y_AssignStop x e loc w o w1 : EV e loc w o w1 -> is_val o = false -> XExec EV chk (NAssign x e) (loc, w) (SStop o) (loc, w1)
+| Y_Expr e loc w v w1 : EV e loc w (OVal v) w1 -> XExec EV chk (NExpr e) (loc, w) SNormal (loc, w1)
+| Y_ExprStop e loc w o w1 : EV e loc w o w1 -> is_val o = false -> XExec EV chk (NExpr e) (loc, w) (SStop o) (loc, w1)
+| Y_Return e loc w o w1 : EV e loc w o w1 -> XExec EV chk (NReturn (Some e)) (loc, w) (SStop o) (loc, w1)
+| Y_ReturnNone s : XExec EV chk (NReturn None) s (SStop (OVal VNull)) s
+| Y_Break s : XExec EV chk NBreak s SBreak s
+| Y_Continue s : XExec EV chk NContinue s SContinue s
+| Y_IfT c a rest loc w v w1 o s2 : EV c loc w (OVal v) w1 -> truthy w1 v = true -> XExec EV chk a (loc, w1) o s2 -> XExec EV chk (NIf c a rest) (loc, w) o s2
+| Y_IfF c a rest loc w v w1 o s2 : EV c loc w (OVal v) w1 -> truthy w1 v = false -> XExec EV chk rest (loc, w1) o s2 -> XExec EV chk (NIf c a rest) (loc, w) o s2
+| Y_IfStop c a rest loc w o w1 : EV c loc w o w1 -> is_val o = false -> XExec EV chk (NIf c a rest) (loc, w) (SStop o) (loc, w1)
+| Y_Else b s o s1 : XExec EV chk b s o s1 -> XExec EV chk (NElse b) s o s1
+| Y_WhileF c b loc w v w1 : EV c loc w (OVal v) w1 -> truthy w1 v = false -> XExec EV chk (NWhile c b) (loc, w) SNormal (loc, w1)
+| Y_WhileStop c b loc w o w1 : EV c loc w o w1 -> is_val o = false -> XExec EV chk (NWhile c b) (loc, w) (SStop o) (loc, w1)
+| Y_WhileT c b loc w v w1 o s2 o3 s3 : EV c loc w (OVal v) w1 -> truthy w1 v = true -> XExec EV chk b (loc, w1) o s2 ->
+    (o = SNormal \/ o = SContinue) -> XExec EV chk (NWhile c b) s2 o3 s3 -> XExec EV chk (NWhile c b) (loc, w) o3 s3
+| Y_WhileB c b loc w v w1 s2 : EV c loc w (OVal v) w1 -> truthy w1 v = true -> XExec EV chk b (loc, w1) SBreak s2 ->
+    XExec EV chk (NWhile c b) (loc, w) SNormal s2
+| Y_WhileS c b loc w v w1 o s2 : EV c loc w (OVal v) w1 -> truthy w1 v = true -> XExec EV chk b (loc, w1) (SStop o) s2 ->
+    XExec EV chk (NWhile c b) (loc, w) (SStop o) s2
 (* for: the expression is evaluated once and the length is taken once; the bookkeeping variables are recorded in the scope *)
-| Y_ForStop vals len idx x e body loc w o w1 : Ev e loc w o w1 -> is_val o = false ->
-    XExec chk (NFor vals len idx x e body) (loc, w) (SStop o) (loc, w1)
+| Y_ForStop vals len idx x e body loc w o w1 : EV e loc w o w1 -> is_val o = false ->
+    XExec EV chk (NFor vals len idx x e body) (loc, w) (SStop o) (loc, w1)
 (* NEW (1): the value is not an array: the body never runs and x is not bound; values / length temporaries are assigned *)
-| Y_ForNotArr vals len idx x e body loc w v w1 : Ev e loc w (OVal v) w1 -> not_arr v = true ->
+| Y_ForNotArr vals len idx x e body loc w v w1 : EV e loc w (OVal v) w1 -> not_arr v = true ->
     sc chk (is_lib ARRLEN (assign' vals v (loc, w1))) ->
-    XExec chk (NFor vals len idx x e body) (loc, w) SNormal
+    XExec EV chk (NFor vals len idx x e body) (loc, w) SNormal
           (assign' len (int_v 0) (logst ARRLEN len_msg (assign' vals v (loc, w1))))
-| Y_ForEmpty vals len idx x e body loc w l w1 : Ev e loc w (OVal (VArr l)) w1 -> nth_error (w_arrs w1) l = Some [] ->
+| Y_ForEmpty vals len idx x e body loc w l w1 : EV e loc w (OVal (VArr l)) w1 -> nth_error (w_arrs w1) l = Some [] ->
     sc chk (is_lib ARRLEN (assign' vals (VArr l) (loc, w1))) ->
-    XExec chk (NFor vals len idx x e body) (loc, w) SNormal (assign' len (int_v 0) (assign' vals (VArr l) (loc, w1)))
+    XExec EV chk (NFor vals len idx x e body) (loc, w) SNormal (assign' len (int_v 0) (assign' vals (VArr l) (loc, w1)))
 | Y_ForLoop vals len idx x e body loc w l w1 elems o st' :
-    Ev e loc w (OVal (VArr l)) w1 -> nth_error (w_arrs w1) l = Some elems -> elems <> [] ->
+    EV e loc w (OVal (VArr l)) w1 -> nth_error (w_arrs w1) l = Some elems -> elems <> [] ->
     sc chk (is_lib ARRLEN (assign' vals (VArr l) (loc, w1))) ->
-    XLoop chk vals len idx x body l (length elems) 0
+    XLoop EV chk vals len idx x body l (length elems) 0
           (assign' idx (int_v 0) (assign' len (int_v (length elems)) (assign' vals (VArr l) (loc, w1)))) o st' ->
-    XExec chk (NFor vals len idx x e body) (loc, w) o st'
+    XExec EV chk (NFor vals len idx x e body) (loc, w) o st'
 (* iteration i binds x to element i of the array as it is in the heap then - NEW (2): to null when there is no element i any more *)
-with XLoop (chk : bool) : str -> str -> str -> str -> unistmt -> nat -> nat -> nat -> sstate -> sout -> sstate -> Prop :=
+with XLoop (EV : evrel) (chk : bool) : str -> str -> str -> str -> unistmt -> nat -> nat -> nat -> sstate -> sout -> sstate -> Prop :=
 | YL_stop vals len idx x body arr m i st v st_g out st_b : sc chk (is_lib ARRGET st) -> IterX arr i st v st_g ->
-    XExec chk body (assign' x v st_g) (SStop out) st_b ->
-    XLoop chk vals len idx x body arr m i st (SStop out) st_b
+    XExec EV chk body (assign' x v st_g) (SStop out) st_b ->
+    XLoop EV chk vals len idx x body arr m i st (SStop out) st_b
 | YL_break vals len idx x body arr m i st v st_g st_b : sc chk (is_lib ARRGET st) -> IterX arr i st v st_g ->
-    XExec chk body (assign' x v st_g) SBreak st_b ->
-    XLoop chk vals len idx x body arr m i st SNormal st_b
+    XExec EV chk body (assign' x v st_g) SBreak st_b ->
+    XLoop EV chk vals len idx x body arr m i st SNormal st_b
 | YL_next vals len idx x body arr m i st v st_g ob st_b o st' : sc chk (is_lib ARRGET st) -> IterX arr i st v st_g ->
-    XExec chk body (assign' x v st_g) ob st_b ->
+    XExec EV chk body (assign' x v st_g) ob st_b ->
     (ob = SNormal \/ ob = SContinue) -> sc chk (Inv3 vals len idx arr m i st_b) -> S i < m ->
-    XLoop chk vals len idx x body arr m (S i) (assign' idx (int_v (S i)) st_b) o st' ->
-    XLoop chk vals len idx x body arr m i st o st'
+    XLoop EV chk vals len idx x body arr m (S i) (assign' idx (int_v (S i)) st_b) o st' ->
+    XLoop EV chk vals len idx x body arr m i st o st'
 | YL_last vals len idx x body arr m i st v st_g ob st_b : sc chk (is_lib ARRGET st) -> IterX arr i st v st_g ->
-    XExec chk body (assign' x v st_g) ob st_b ->
+    XExec EV chk body (assign' x v st_g) ob st_b ->
     (ob = SNormal \/ ob = SContinue) -> sc chk (Inv3 vals len idx arr m i st_b) -> m <= S i ->
-    XLoop chk vals len idx x body arr m i st SNormal (assign' idx (int_v (S i)) st_b).
+    XLoop EV chk vals len idx x body arr m i st SNormal (assign' idx (int_v (S i)) st_b).
 
 Scheme XExec_mut := Minimality for XExec Sort Prop
   with XLoop_mut := Minimality for XLoop Sort Prop.
@@ -164,9 +167,9 @@ Combined Scheme X_both from XExec_mut, XLoop_mut.
 
 (* the reading of Proofs/C01u.v is contained in the one with the side conditions on *)
 Lemma UExec_XExec_both :
-  (forall s st o st', UExec cfg lib url_rel lint_lines um s st o st' -> XExec true s st o st') /\
+  (forall s st o st', UExec cfg lib url_rel lint_lines um s st o st' -> XExec Ev true s st o st') /\
   (forall vals len idx x body arr m i st o st', ULoop cfg lib url_rel lint_lines um vals len idx x body arr m i st o st' ->
-     XLoop true vals len idx x body arr m i st o st').
+     XLoop Ev true vals len idx x body arr m i st o st').
 Proof.
   assert (HI : forall arr i st v, IterPre arr i st v -> sc true (is_lib ARRGET st) /\ IterX arr i st v st).
   { intros arr i st v (elems & Hf & Ha & He). split; [intros _; exact Hf|econstructor; eassumption]. }
@@ -174,19 +177,25 @@ Proof.
     try match goal with H : IterPre _ _ _ _ |- _ => apply HI in H; destruct H end;
     try (econstructor; solve [eauto | intros _; eauto]).
 Qed.
-Lemma UExec_XExec s st o st' : UExec cfg lib url_rel lint_lines um s st o st' -> XExec true s st o st'.
+Lemma UExec_XExec s st o st' : UExec cfg lib url_rel lint_lines um s st o st' -> XExec Ev true s st o st'.
 Proof. apply UExec_XExec_both. Qed.
 
 (* dropping side conditions *)
-Lemma XExec_weaken_both :
-  (forall s st o st', XExec true s st o st' -> XExec false s st o st') /\
-  (forall vals len idx x body arr m i st o st', XLoop true vals len idx x body arr m i st o st' -> XLoop false vals len idx x body arr m i st o st').
+Lemma XExec_weaken_both EV :
+  (forall s st o st', XExec EV true s st o st' -> XExec EV false s st o st') /\
+  (forall vals len idx x body arr m i st o st', XLoop EV true vals len idx x body arr m i st o st' -> XLoop EV false vals len idx x body arr m i st o st').
 Proof. apply X_both; intros; try (econstructor; solve [eauto | intros E; discriminate E]). Qed.
 
+(* a larger evaluation relation *)
+Lemma XExec_mono_both (EV EV' : evrel) chk : (forall e loc w o w1, EV e loc w o w1 -> EV' e loc w o w1) ->
+  (forall s st o st', XExec EV chk s st o st' -> XExec EV' chk s st o st') /\
+  (forall vals len idx x body arr m i st o st', XLoop EV chk vals len idx x body arr m i st o st' -> XLoop EV' chk vals len idx x body arr m i st o st').
+Proof. intros HE. apply X_both; intros; try (econstructor; solve [eauto]). Qed.
+
 (* ---------------------------------------------------------------- facts about `continue` *)
-Lemma xhas_cont_sound chk :
-  (forall s st o st', XExec chk s st o st' -> uhas_cont s = false -> o <> SContinue) /\
-  (forall vals len idx x body arr m i st o st', XLoop chk vals len idx x body arr m i st o st' -> o <> SContinue).
+Lemma xhas_cont_sound EV chk :
+  (forall s st o st', XExec EV chk s st o st' -> uhas_cont s = false -> o <> SContinue) /\
+  (forall vals len idx x body arr m i st o st', XLoop EV chk vals len idx x body arr m i st o st' -> o <> SContinue).
 Proof.
   apply X_both; intros; cbn [uhas_cont] in *; try discriminate; auto;
     repeat match goal with H : (_ || _)%bool = false |- _ => apply orb_false_elim in H; destruct H end; auto.
@@ -365,13 +374,13 @@ Ltac leaf := split; [|split; [triv_Q|triv_W]].
 
 
 Theorem xsim_both :
-  (forall s st o st', XExec true s st o st' -> UALL s st o st') /\
-  (forall vals len idx x body arr m i st o st', XLoop true vals len idx x body arr m i st o st' -> UPL vals len idx x body arr m i st o st').
+  (forall s st o st', XExec Ev true s st o st' -> UALL s st o st') /\
+  (forall vals len idx x body arr m i st o st', XLoop Ev true vals len idx x body arr m i st o st' -> UPL vals len idx x body arr m i st o st').
 Proof.
-  assert (Hhc : forall body st_a ob st_b, XExec true body st_a ob st_b -> ob = SContinue -> uhas_cont body = true).
+  assert (Hhc : forall body st_a ob st_b, XExec Ev true body st_a ob st_b -> ob = SContinue -> uhas_cont body = true).
   { intros body st_a ob st_b Hb ->. destruct (uhas_cont body) eqn:E; [reflexivity|].
-    exfalso. exact (proj1 (xhas_cont_sound true) _ _ _ _ Hb E eq_refl). }
-  apply (X_both true); unfold C01u.UALL.
+    exfalso. exact (proj1 (xhas_cont_sound Ev true) _ _ _ _ Hb E eq_refl). }
+  apply (X_both Ev true); unfold C01u.UALL.
   - (* Skip *)
     intros st. split; [|split; [|triv_W]].
     + intros code ctx cpos n pc wm _ _ _ _ _ Hw. exists wm. split; [exact Hw|]. cbn. rewrite PeanoNat.Nat.add_0_r. auto.
@@ -582,7 +591,7 @@ Proof.
       { split; assumption. }
       destruct (IHb code _ _ (S n) (pc + 2) wm1 HN Hcb Hwb Hgb Hatb Hw1) as (wm2 & Hw2 & Hp2).
       assert (Hoc : o = SNormal).
-      { destruct Ho as [->| ->]; [reflexivity|]. exfalso. exact (proj1 (xhas_cont_sound true) _ _ _ _ Hb Hnc eq_refl). }
+      { destruct Ho as [->| ->]; [reflexivity|]. exfalso. exact (proj1 (xhas_cont_sound Ev true) _ _ _ _ Hb Hnc eq_refl). }
       subst o. cbn [C01.post] in Hp2.
       destruct (IHw c b eq_refl code ctx cpos n pc wm2 HN Hc Hwb Hnc Hgb Hat Hw2) as (wm3 & Hw3 & Hp3).
       exists wm3. split; [exact Hw3|]. eapply post_pre; [exact Hp2|exact Hp3]. }
@@ -735,11 +744,11 @@ Qed.
 
 
 (* THE SIMULATION for the extended reading (side conditions on), at any position of a statement list with unique labels *)
-Theorem xsim : forall s st o st', XExec true s st o st' -> UPP s st o st'.
+Theorem xsim : forall s st o st', XExec Ev true s st o st' -> UPP s st o st'.
 Proof. intros s st o st' H. exact (proj1 (proj1 xsim_both s st o st' H)). Qed.
 
 (* the whole scope: run from statement 0 *)
-Theorem xscope_sim : forall s loc w o loc' w', XExec true s (loc, w) o (loc', w') ->
+Theorem xscope_sim : forall s loc w o loc' w', XExec Ev true s (loc, w) o (loc', w') ->
   uwf false s = true -> uguard s = true ->
   forall n wm, NoDup (labels (fst (ucompile None n s))) -> weq w wm ->
   exists out wm', scope_result o = Some out /\ weq w' wm' /\ Run (fst (ucompile None n s)) 0 loc wm (out, loc', wm').
@@ -755,12 +764,34 @@ Proof.
 Qed.
 
 (* ---------------------------------------------------------------- an executable interpreter for the extended reading *)
+(* an evaluation relation restricted by a predicate on the evaluation *)
+Definition EvQ (Q : evrel) : evrel := fun e loc w o w1 => Ev e loc w o w1 /\ Q e loc w o w1.
+
+Section Exec.
+Variable Q : evrel.
+Variable qb : expr -> option env -> world -> outcome -> world -> bool.       (* a decision procedure for Q *)
+Hypothesis Hqb : forall e loc w o w1, qb e loc w o w1 = true -> Q e loc w o w1.
+
+Definition evq (f : nat) (e : expr) (loc : option env) (w0 : world) : option (outcome * world) :=
+  match eval f e loc false um w0 with
+  | (OFuel, _) => None
+  | (o, w1) => if qb e loc w0 o w1 then Some (o, w1) else None
+  end.
+
+Lemma evq_sound f e loc w o w1 : evq f e loc w = Some (o, w1) -> EvQ Q e loc w o w1.
+Proof.
+  unfold evq. destruct (eval f e loc false um w) as [o' w'] eqn:E. intros H.
+  assert (H' : o' <> OFuel /\ (if qb e loc w o' w' then Some (o', w') else None) = Some (o, w1)).
+  { destruct o'; try (split; [discriminate|exact H]). discriminate H. }
+  destruct H' as [Hn H']. destruct (qb e loc w o' w') eqn:Eq; [|discriminate]. injection H' as <- <-.
+  split; [exists f; split; [exact E|exact Hn]|apply Hqb; exact Eq].
+Qed.
+
 Fixpoint xexec (chk : bool) (fuel : nat) (s : unistmt) (st : sstate) {struct fuel} : option (sout * sstate) :=
   match fuel with
   | O => None
   | S f =>
     let '(loc, w) := st in
-    let ev e w0 := match eval f e loc false um w0 with (OFuel, _) => None | r => Some r end in
     match s with
     | NSkip => Some (SNormal, st)
     | NSeq a b =>
@@ -769,30 +800,30 @@ Fixpoint xexec (chk : bool) (fuel : nat) (s : unistmt) (st : sstate) {struct fue
       | r => r
       end
     | NAssign x e =>
-      match ev e w with
+      match evq f e loc w with
       | Some (OVal v, w1) => Some (SNormal, assign x v loc w1)
       | Some (o, w1) => Some (SStop o, (loc, w1))
       | None => None
       end
     | NExpr e =>
-      match ev e w with
+      match evq f e loc w with
       | Some (OVal v, w1) => Some (SNormal, (loc, w1))
       | Some (o, w1) => Some (SStop o, (loc, w1))
       | None => None
       end
-    | NReturn (Some e) => match ev e w with Some (o, w1) => Some (SStop o, (loc, w1)) | None => None end
+    | NReturn (Some e) => match evq f e loc w with Some (o, w1) => Some (SStop o, (loc, w1)) | None => None end
     | NReturn None => Some (SStop (OVal VNull), st)
     | NBreak => Some (SBreak, st)
     | NContinue => Some (SContinue, st)
     | NIf c a rest =>
-      match ev c w with
+      match evq f c loc w with
       | Some (OVal v, w1) => if truthy w1 v then xexec chk f a (loc, w1) else xexec chk f rest (loc, w1)
       | Some (o, w1) => Some (SStop o, (loc, w1))
       | None => None
       end
     | NElse b => xexec chk f b st
     | NWhile c b =>
-      match ev c w with
+      match evq f c loc w with
       | Some (OVal v, w1) =>
         if truthy w1 v then
           match xexec chk f b (loc, w1) with
@@ -806,9 +837,9 @@ Fixpoint xexec (chk : bool) (fuel : nat) (s : unistmt) (st : sstate) {struct fue
       | None => None
       end
     | NFor vals len idx x e body =>
-      match eval f e loc false um w with
-      | (OFuel, _) => None
-      | (OVal v, w1) =>
+      match evq f e loc w with
+      | None => None
+      | Some (OVal v, w1) =>
         if negb chk || is_libb ARRLEN (assign' vals v (loc, w1)) then
           match v with
           | VArr l =>
@@ -821,7 +852,7 @@ Fixpoint xexec (chk : bool) (fuel : nat) (s : unistmt) (st : sstate) {struct fue
           | _ => Some (SNormal, assign' len (int_v 0) (logst ARRLEN len_msg (assign' vals v (loc, w1))))
           end
         else None
-      | (o, w1) => Some (SStop o, (loc, w1))
+      | Some (o, w1) => Some (SStop o, (loc, w1))
       end
     end
   end
@@ -852,8 +883,9 @@ Lemma sc_of chk b (P : Prop) : (b = true -> P) -> negb chk || b = true -> sc chk
 Proof. intros H E Hc. rewrite Hc in E. cbn in E. apply H. exact E. Qed.
 
 Theorem xexec_sound_both chk : forall fuel,
-  (forall s st o st', xexec chk fuel s st = Some (o, st') -> XExec chk s st o st') /\
-  (forall vals len idx x body l m i st o st', xloop chk fuel vals len idx x body l m i st = Some (o, st') -> XLoop chk vals len idx x body l m i st o st').
+  (forall s st o st', xexec chk fuel s st = Some (o, st') -> XExec (EvQ Q) chk s st o st') /\
+  (forall vals len idx x body l m i st o st', xloop chk fuel vals len idx x body l m i st = Some (o, st') ->
+     XLoop (EvQ Q) chk vals len idx x body l m i st o st').
 Proof.
   induction fuel as [|f [IH IHl]]; [split; intros; discriminate|]. split.
   - intros s [loc w] o st' H. cbn [xexec] in H.
@@ -862,21 +894,21 @@ Proof.
     + destruct (xexec chk f a (loc, w)) as [[oa st1]|] eqn:Ea; [|discriminate].
       destruct oa; try (injection H as <- <-; apply Y_SeqA; [apply IH; exact Ea|discriminate]).
       eapply Y_SeqN; [apply IH; exact Ea|apply IH; exact H].
-    + destruct (match eval f e loc false um w with (OFuel, _) => None | r => Some r end) as [[oe w1]|] eqn:Ee; [|discriminate].
-      apply ev_sound in Ee. destruct oe; injection H as <- <-; try (apply Y_AssignStop; [exact Ee|reflexivity]). apply Y_Assign. exact Ee.
-    + destruct (match eval f e loc false um w with (OFuel, _) => None | r => Some r end) as [[oe w1]|] eqn:Ee; [|discriminate].
-      apply ev_sound in Ee. destruct oe; injection H as <- <-; try (apply Y_ExprStop; [exact Ee|reflexivity]). eapply Y_Expr. exact Ee.
-    + destruct (match eval f e loc false um w with (OFuel, _) => None | r => Some r end) as [[oe w1]|] eqn:Ee; [|discriminate].
-      apply ev_sound in Ee. injection H as <- <-. apply Y_Return. exact Ee.
+    + destruct (evq f e loc w) as [[oe w1]|] eqn:Ee; [|discriminate].
+      apply evq_sound in Ee. destruct oe; injection H as <- <-; try (apply Y_AssignStop; [exact Ee|reflexivity]). apply Y_Assign. exact Ee.
+    + destruct (evq f e loc w) as [[oe w1]|] eqn:Ee; [|discriminate].
+      apply evq_sound in Ee. destruct oe; injection H as <- <-; try (apply Y_ExprStop; [exact Ee|reflexivity]). eapply Y_Expr. exact Ee.
+    + destruct (evq f e loc w) as [[oe w1]|] eqn:Ee; [|discriminate].
+      apply evq_sound in Ee. injection H as <- <-. apply Y_Return. exact Ee.
     + injection H as <- <-. constructor.
     + injection H as <- <-. constructor.
     + injection H as <- <-. constructor.
-    + destruct (match eval f c loc false um w with (OFuel, _) => None | r => Some r end) as [[oe w1]|] eqn:Ee; [|discriminate].
-      apply ev_sound in Ee. destruct oe; try (injection H as <- <-; apply Y_IfStop; [exact Ee|reflexivity]).
+    + destruct (evq f c loc w) as [[oe w1]|] eqn:Ee; [|discriminate].
+      apply evq_sound in Ee. destruct oe; try (injection H as <- <-; apply Y_IfStop; [exact Ee|reflexivity]).
       destruct (truthy w1 v) eqn:Et; [eapply Y_IfT|eapply Y_IfF]; eauto.
     + apply Y_Else. apply IH. exact H.
-    + destruct (match eval f c loc false um w with (OFuel, _) => None | r => Some r end) as [[oe w1]|] eqn:Ee; [|discriminate].
-      apply ev_sound in Ee. destruct oe; try (injection H as <- <-; apply Y_WhileStop; [exact Ee|reflexivity]).
+    + destruct (evq f c loc w) as [[oe w1]|] eqn:Ee; [|discriminate].
+      apply evq_sound in Ee. destruct oe; try (injection H as <- <-; apply Y_WhileStop; [exact Ee|reflexivity]).
       destruct (truthy w1 v) eqn:Et; [|injection H as <- <-; eapply Y_WhileF; eauto].
       destruct (xexec chk f b (loc, w1)) as [[ob st2]|] eqn:Eb; [|discriminate]. apply IH in Eb.
       destruct ob.
@@ -884,18 +916,18 @@ Proof.
       * injection H as <- <-. eapply Y_WhileB; eauto.
       * eapply Y_WhileT; [exact Ee|exact Et|exact Eb|right; reflexivity|apply IH; exact H].
       * injection H as <- <-. eapply Y_WhileS; eauto.
-    + destruct (eval f e loc false um w) as [oe w1] eqn:Ee.
-      assert (HE : oe <> OFuel -> Ev e loc w oe w1) by (intros Hn; exists f; split; [exact Ee|exact Hn]).
-      destruct oe as [v| | | | |]; try discriminate;
-        try (injection H as <- <-; apply Y_ForStop; [apply HE; discriminate|reflexivity]).
+    + destruct (evq f e loc w) as [[oe w1]|] eqn:Ee; [|discriminate].
+      apply evq_sound in Ee.
+      destruct oe as [v| | | | |];
+        try (injection H as <- <-; apply Y_ForStop; [exact Ee|reflexivity]).
       destruct (negb chk || is_libb ARRLEN (assign' vals v (loc, w1))) eqn:Efn; [|discriminate].
       apply (sc_of _ _ _ (is_libb_sound ARRLEN _)) in Efn.
       destruct v;
-        try (injection H as <- <-; apply Y_ForNotArr; [apply HE; discriminate|reflexivity|exact Efn]).
+        try (injection H as <- <-; apply Y_ForNotArr; [exact Ee|reflexivity|exact Efn]).
       destruct (nth_error (w_arrs w1) l) as [elems|] eqn:Ea; [|discriminate].
       destruct elems as [|e0 et].
-      * injection H as <- <-. apply Y_ForEmpty; [apply HE; discriminate|exact Ea|exact Efn].
-      * apply IHl in H. eapply Y_ForLoop; [apply HE; discriminate|exact Ea|discriminate|exact Efn|exact H].
+      * injection H as <- <-. apply Y_ForEmpty; [exact Ee|exact Ea|exact Efn].
+      * apply IHl in H. eapply Y_ForLoop; [exact Ee|exact Ea|discriminate|exact Efn|exact H].
   - intros vals len idx x body l m i st o st' H. cbn [xloop] in H.
     destruct (negb chk || is_libb ARRGET st) eqn:Efn; [|discriminate]. apply (sc_of _ _ _ (is_libb_sound ARRGET _)) in Efn.
     destruct (nth_error (w_arrs (snd st)) l) as [elems|] eqn:Ea; [|discriminate].
@@ -919,9 +951,16 @@ Proof.
     + injection H as <- <-. eapply YL_stop; [exact Efn|exact Hit|exact Eb].
 Qed.
 
-Theorem xexec_sound chk : forall fuel s st o st', xexec chk fuel s st = Some (o, st') -> XExec chk s st o st'.
+Theorem xexec_sound chk : forall fuel s st o st', xexec chk fuel s st = Some (o, st') -> XExec (EvQ Q) chk s st o st'.
 Proof. intros fuel. exact (proj1 (xexec_sound_both chk fuel)). Qed.
 
+(* ... and hence a derivation over the unrestricted evaluation relation *)
+Theorem xexec_sound_Ev chk : forall fuel s st o st', xexec chk fuel s st = Some (o, st') -> XExec Ev chk s st o st'.
+Proof.
+  intros fuel s st o st' H. apply xexec_sound in H. revert H.
+  apply (XExec_mono_both (EvQ Q) Ev chk). intros e loc w o0 w1 [He _]. exact He.
+Qed.
+End Exec.
 
 End Side.
 
